@@ -143,8 +143,9 @@ def handleRef : List Sexp → Sexp
   | [.atom "c03-ref", e, n] =>
     match envOfSexp e, Node.ofSexp n with
     | some e, some n =>
-      match synth (cfgOfEnv .asIs .repaired e true .none) [] n with
-      | some t => .list [.atom "well", Ty.optToSexp t]
+      let cfg := cfgOfEnv .asIs .repaired e true .none
+      match synth cfg [] n with
+      | some t => .list [.atom "well", Ty.optToSexp t, Sexp.bool (staticNode cfg [] n)]
       | none => .atom "ill"
     | _, _ => bad
   | _ => bad
